@@ -311,6 +311,14 @@ fn rewrite_fn(name: &str, sig: &mut Signature, block: &mut Block, unit: &Unit, l
         }
     }
     let mut rw = Body::new(unit, log, name.to_string(), lifted);
+    rw.fn_locals = bound_idents(block);
+    for a in sig.inputs.iter() {
+        if let FnArg::Typed(pt) = a {
+            if let Pat::Ident(pi) = &*pt.pat {
+                rw.fn_locals.insert(pi.ident.to_string());
+            }
+        }
+    }
     if rw.opt_list("inline_closures").iter().any(|f| *f == name || *f == short) {
         rw.rule_inline_closures(block);
     }
@@ -333,11 +341,66 @@ pub struct Body<'a> {
     rev_ranges: Vec<(String, Expr, Expr)>,
     find_counter: usize,
     pipe_counter: usize,
+    /// names bound anywhere in the function being rewritten (parameters and patterns): used to notice that a captured
+    /// variable named in a [[lift]] entry has been renamed in the source
+    fn_locals: std::collections::HashSet<String>,
+}
+
+/// identifiers bound by patterns / used as plain path expressions (not in call position) inside a block
+pub fn bound_idents(block: &Block) -> std::collections::HashSet<String> {
+    struct B(std::collections::HashSet<String>);
+    impl<'ast> syn::visit::Visit<'ast> for B {
+        fn visit_pat_ident(&mut self, p: &'ast PatIdent) {
+            self.0.insert(p.ident.to_string());
+            syn::visit::visit_pat_ident(self, p);
+        }
+    }
+    let mut b = B(Default::default());
+    syn::visit::Visit::visit_block(&mut b, block);
+    b.0
+}
+pub fn used_idents(block: &Block) -> std::collections::HashSet<String> {
+    struct U(std::collections::HashSet<String>);
+    impl<'ast> syn::visit::Visit<'ast> for U {
+        fn visit_expr_call(&mut self, c: &'ast ExprCall) {
+            // the callee position names a function, not a variable
+            if !matches!(&*c.func, Expr::Path(_)) {
+                syn::visit::visit_expr(self, &c.func);
+            }
+            for a in &c.args {
+                syn::visit::visit_expr(self, a);
+            }
+        }
+        fn visit_expr_path(&mut self, p: &'ast ExprPath) {
+            if let Some(i) = p.path.get_ident() {
+                self.0.insert(i.to_string());
+            }
+        }
+    }
+    let mut u = U(Default::default());
+    syn::visit::Visit::visit_block(&mut u, block);
+    u.0
+}
+fn replace_word(text: &str, from: &str, to: &str) -> String {
+    let mut out = String::new();
+    let b = text.as_bytes();
+    let mut i = 0;
+    let is_id = |c: u8| c.is_ascii_alphanumeric() || c == b'_';
+    while i < text.len() {
+        if text[i..].starts_with(from) && (i == 0 || !is_id(b[i - 1])) && (i + from.len() >= text.len() || !is_id(b[i + from.len()])) {
+            out.push_str(to);
+            i += from.len();
+        } else {
+            out.push(b[i] as char);
+            i += 1;
+        }
+    }
+    out
 }
 
 impl<'a> Body<'a> {
     pub fn new(unit: &'a Unit, log: &'a mut Log, func: String, lifted: &'a mut Vec<Item>) -> Self {
-        Body { unit, log, func, counter: 0, closure_counter: 0, lifted, rev_ranges: vec![], find_counter: 0, pipe_counter: 0 }
+        Body { unit, log, func, counter: 0, closure_counter: 0, lifted, rev_ranges: vec![], find_counter: 0, pipe_counter: 0, fn_locals: Default::default() }
     }
 
     fn note(&mut self, rule: &str, detail: String) {
@@ -1726,10 +1789,63 @@ impl<'a> Body<'a> {
         closures.reverse();
         let short = self.func.rsplit("::").next().unwrap().to_string();
         let mut ordinal = self.closure_counter;
+        // R19r: a captured variable named in the [[lift]] entries may have been renamed in the source.  A name used in `args`
+        // that is bound nowhere in the function any more is stale; when exactly one stale name and exactly one new captured
+        // name (bound in the function, used in a closure body, not a parameter of the lift entry) exist, the entry follows the rename
+        let mut renames: Vec<(String, String)> = vec![];
+        {
+            let mut stale: std::collections::BTreeSet<String> = Default::default();
+            let mut fresh: std::collections::BTreeSet<String> = Default::default();
+            let mut ord = ordinal;
+            for c in &closures {
+                let Some(spec) = self.unit.lift.iter().find(|l| (l.func == short || l.func == self.func) && l.closure == ord) else { break };
+                let body: Block = match &*c.body {
+                    Expr::Block(b) => b.block.clone(),
+                    other => parse_quote!({ #other }),
+                };
+                let params: Vec<String> = syn::parse_str::<ItemFn>(&format!("fn f({}) {{ }}", spec.params)).map(|f| f.sig.inputs.iter().filter_map(|a| if let FnArg::Typed(pt) = a { if let Pat::Ident(pi) = &*pt.pat { Some(pi.ident.to_string()) } else { None } } else { None }).collect()).unwrap_or_default();
+                if let Ok(ae) = syn::parse_str::<Expr>(&format!("f({})", spec.args)) {
+                    let blk: Block = parse_quote!({ #ae; });
+                    for u in used_idents(&blk) {
+                        if !self.fn_locals.contains(&u) && u != "self" && u.chars().next().map_or(false, |ch| ch.is_lowercase()) {
+                            stale.insert(u);
+                        }
+                    }
+                }
+                let inner = bound_idents(&body);
+                for u in used_idents(&body) {
+                    if self.fn_locals.contains(&u) && !inner.contains(&u) && !params.contains(&u) && u.chars().next().map_or(false, |ch| ch.is_lowercase() || ch == '_') {
+                        fresh.insert(u);
+                    }
+                }
+                struct Cnt0(usize);
+                impl VisitMut for Cnt0 {
+                    fn visit_expr_closure_mut(&mut self, c: &mut ExprClosure) {
+                        self.0 += 1;
+                        visit_mut::visit_expr_closure_mut(self, c);
+                    }
+                }
+                let mut cnt = Cnt0(0);
+                let mut cc = c.clone();
+                cnt.visit_expr_mut(&mut cc.body);
+                ord += 1 + cnt.0;
+            }
+            if std::env::var("VEXTRACT_DEBUG").is_ok() { eprintln!("R19r debug: stale={:?} fresh={:?} locals={}", stale, fresh, self.fn_locals.len()); }
+            if stale.len() == 1 && fresh.len() == 1 {
+                let (a, b) = (stale.into_iter().next().unwrap(), fresh.into_iter().next().unwrap());
+                self.note("R19r", format!("captured variable `{a}` of the lift entries is `{b}` in the source now: entries follow the rename"));
+                renames.push((a, b));
+            }
+        }
         let mut calls: Vec<(Ident, Expr)> = vec![];
         let mut items: Vec<Item> = vec![];
         for c in &closures {
-            let spec = self.unit.lift.iter().find(|l| (l.func == short || l.func == self.func) && l.closure == ordinal)?.clone();
+            let mut spec = self.unit.lift.iter().find(|l| (l.func == short || l.func == self.func) && l.closure == ordinal)?.clone();
+            for (a, b) in &renames {
+                spec.params = replace_word(&spec.params, a, b);
+                spec.args = replace_word(&spec.args, a, b);
+                spec.deref = spec.deref.iter().map(|d| if d == a { b.clone() } else { d.clone() }).collect();
+            }
             let mut f: ItemFn = syn::parse_str(&format!("fn {}({}) -> {} {{ }}", spec.name, spec.params, spec.ret)).unwrap_or_else(|e| fail(&format!("bad lift spec {}: {e}", spec.name)));
             let mut body: Block = match &*c.body {
                 Expr::Block(b) => b.block.clone(),
